@@ -170,6 +170,10 @@ def run(ctx):
             rej = [(k, e) for k, d, e in A if k in (["discr(a1)=Path"], ["discr(a1)=List"])]
             ok = len(rej) == 2 and all(e.startswith("core::result::Result::Err{darling_core::error::Error::with_span(darling_core::error::Error::unsupported_format(") for k, e in rej)
             ctx.ob("C13.G.helpers-reject-other-forms", (a if name == "preserve" else b).key, "Path/List => spanned error", ok, "%s" % rej)
+    # path lists and whole meta items in list position are read by NestedMeta's grammar: `::a::b`
+    # must reach the item parser (necessary for "leading ::" of the property's grammar)
+    from .C15 import item_grammar_rules
+    item_grammar_rules(ctx, "C13.items")
     # PathList: words only, in order
     f = ctx.fn("<darling_core::util::path_list::PathList as %s>::from_list" % FM)
     if f:
